@@ -12,9 +12,9 @@ pub const SIGMA: [&str; 16] = [
     "a", "n", " ", "\"", "\\", "#", "=", ":", "$", "{", "%", "\t", "\n", "é",
 ];
 
-const LABELS: [Option<&str>; 3] = [None, Some(":l"), Some(":a.b")];
-const OUTPUTS: [Option<&str>; 3] = [None, Some("x"), Some("scope::y")];
-const COMMANDS: [Option<&str>; 3] = [None, Some("cmd"), Some("ns::Cmd")];
+const LABELS: [Option<&str>; 4] = [None, Some(":l"), Some(":a.b"), Some(":é_1")];
+const OUTPUTS: [Option<&str>; 4] = [None, Some("x"), Some("scope::y"), Some("out-1.é")];
+const COMMANDS: [Option<&str>; 4] = [None, Some("cmd"), Some("ns::Cmd"), Some("é_2")];
 const LEADS: [&str; 3] = ["", "  ", "\t "];
 const TRAILS: [&str; 6] = ["", " ", " \t", " # c", "   #c \"x", "  # \\q"];
 
@@ -214,6 +214,7 @@ pub fn worker(w: &mut Worker) {
         vec![":", "a:b"],
         vec!["a=b", "\"a b\""],
         vec!["", "", ""],
+        vec!["a", "", "b c", "#", "=", "\"", "\\", "é"],
     ];
     for l in LABELS {
         for o in OUTPUTS {
@@ -399,7 +400,7 @@ pub fn crash_sig(_case: &Value, kind: &str) -> String {
     kind.to_string()
 }
 
-pub const RULE: &str = "enumeration (no duplicates by construction): A) every instruction shape (label x output x command, 27) x every rendering style (quote-when-optional, 1|3 separator spaces, 3 leads, 6 trails incl. comments, 4 '=' spacings) x 15 argument lists; B) every argument string up to the length bound over the 16-character alphabet {a n SP \" \\ # = : $ { % TAB LF CR NBSP e-acute}; a TAB inside an argument is written both as \\t and raw, as 1, 2 and 3 arguments, x 3 shapes x 16 styles; C) every script of up to n lines from a pool of 12 lines x LF/CRLF x final line break. Oracle: parse_text(render(i)) == i. A case is non-trivial when a label or output is present or an argument needs quoting or escaping; states = distinct outcome classes (shape, argument count, character classes per argument), transitions = parse_text calls";
+pub const RULE: &str = "enumeration (no duplicates by construction): A) every instruction shape (label x output x command, 64, names with dots, '::', '-', '_', digits and non-ASCII letters) x every rendering style (quote-when-optional, 1|3 separator spaces, 3 leads, 6 trails incl. comments, 4 '=' spacings) x 17 argument lists (up to 8 arguments); B) every argument string up to the length bound over the 16-character alphabet {a n SP \" \\ # = : $ { % TAB LF CR NBSP e-acute}; a TAB inside an argument is written both as \\t and raw, as 1, 2 and 3 arguments, x 3 shapes x 16 styles; C) every script of up to n lines from a pool of 12 lines x LF/CRLF x final line break. Oracle: parse_text(render(i)) == i. A case is non-trivial when a label or output is present or an argument needs quoting or escaping; states = distinct outcome classes (shape, argument count, character classes per argument), transitions = parse_text calls";
 pub const ASSUMPTIONS: &[&str] = &["characters outside the alphabet behave like 'a' or 'e-acute' (the scanner has no other special characters)", "names are restricted to the listed labels/outputs/commands"];
 pub const EXHAUSTIVE: bool = true;
 pub const WALL_CAP_S: (u64, u64) = (50, 1500);
